@@ -11,7 +11,7 @@ From RU Require Import Base.Prelude Base.Utf8 Model.AsciiSet Gen.Tables Model.Pe
   Proofs.ListN Proofs.C03_WF Proofs.C06_List Proofs.C06_WFI Proofs.C06_Tail Proofs.C06_Steps
   Proofs.C02_Enc Proofs.C02_Parts Proofs.C02_Auth Proofs.C02_AuthParts Proofs.C02_AuthSp
   Proofs.C04_PathTotal Proofs.C04_Parse Proofs.C03_ReachParts Proofs.C03_Reach Proofs.C03_ReachFile
-  Proofs.C05_Parser Proofs.C05_Frag Proofs.C05_PathClean Proofs.C05_ParseArms Proofs.C05_Sharp.
+  Proofs.C05_Parser Proofs.C05_Frag Proofs.C05_PathClean Proofs.C05_ParseArms Proofs.C05_Sharp Proofs.C05_BaseOk.
 
 (* ---------- with_query_and_fragment passes the authority offsets through ---------- *)
 Lemma wqf_fields2 ovr ctx st se ue hs he hi pt ps s rem u :
@@ -182,6 +182,24 @@ Proof using HW.
         reflexivity.
       * intros _ Ha'. exfalso.
         pose proof (af_ue (wf_auth_facts u W Ha')) as K. rewrite F1, F2, L0 in K. lia.
+Qed.
+
+(* the scheme of the record is the scheme parse_scheme has read *)
+Theorem parse_nobase_scheme input sch rem u :
+  parse_scheme CUrlParser (input_new_trim_c0 input) = Some (sch, rem) ->
+  st_is_file (scheme_type_of sch) = false ->
+  parse_url dbg hp hpo hd ovr None input = POk u -> b_scheme u = sch.
+Proof.
+  intros Es Hnf Hp. unfold parse_url in Hp. rewrite Es in Hp.
+  unfold parse_with_scheme in Hp. du32 (nlen sch) se E. cbn [pbind] in Hp. apply to_u32_eq in E. subst se.
+  assert (nlen (sch ++ [58]) = nlen sch + 1) as L0 by (rewrite nlen_app; reflexivity).
+  assert (scheme_end u = nlen sch /\ nfirstn (nlen sch) (ser u) = nfirstn (nlen sch) (sch ++ [58])) as [A B].
+  { destruct (scheme_type_of sch) eqn:Est.
+    - discriminate Hnf.
+    - destruct (inp_count_matching is_slash_or_bslash rem) as [slashes remaining].
+      destruct (ads_bk dbg hp hpo hd ovr _ _ _ _ _ L0 Hp) as (A & B & _). split; assumption.
+    - exact (pns_bk dbg hp hpo hd ovr _ _ _ _ _ L0 Hp). }
+  unfold b_scheme. rewrite A, B. apply nfirstn_app_exact.
 Qed.
 
 End Top.
